@@ -36,7 +36,8 @@ from holopy.core.metadata import detector_grid, detector_points, update_metadata
 
 WL, NMED = 0.66, 1.33
 POL = {"x": (1, 0), "z24_3": (math.cos(math.pi / 4), math.sin(math.pi / 4)),
-       "z24_8": (math.cos(2 * math.pi / 3), math.sin(2 * math.pi / 3)), "unnormalised": (2.0, 1.0)}
+       "z24_8": (math.cos(2 * math.pi / 3), math.sin(2 * math.pi / 3)), "unnormalised": (2.0, 1.0),
+       "unnormalised3": (3.0, -4.0, 0.0)}
 ALPHA = {"zero": 0, "one": 1.0, "fraction": 0.7, "negative": -0.5}
 DET_WL, DET_MI, DET_PO = 0.52, 1.41, (0.0, 1.0)       # what the detector itself carries
 
@@ -123,7 +124,7 @@ def run(ctx):
     quick = ctx.tier == "quick"
     rng = random.Random(ctx.seed)
     ctx.rule = ("request: TLC enumerates ~27k compatible requests (7 scatterer/theory kinds x 6 detector "
-                "kinds x 4 polarisations x 4 scalings x 4^3 sources of the optics values) with the staged "
+                "kinds x 5 polarisations x 4 scalings x 4^3 sources of the optics values) with the staged "
                 "outcome; a seeded sample covering every factor value is replayed (quick 260, thorough 4000); "
                 "history: all call sequences of length <= 3 over 11 stale-state configurations (1463); distinct = "
                 "request or sequence; non-trivial = request that reaches the field stage / sequence of >= 2")
@@ -231,7 +232,7 @@ def run(ctx):
             elif h.illum_wavelen != exp_wl:
                 bad = ("attrs/illum_wavelen", {"impl": h.illum_wavelen, "spec": exp_wl})
             pv = polv if src["illum_polarization"] == "kw" else dm.get("illum_polarization")
-            pe = np.array(list(pv) + [0.0], dtype=float)
+            pe = np.array((list(pv) + [0.0])[:3], dtype=float)
             pe = pe / np.sqrt((pe ** 2).sum())
             pi = np.asarray(h.illum_polarization.values, dtype=float)
             if pi.shape[-1] != 3 or np.max(np.abs(pi.reshape(-1, 3) - pe)) > 1e-15:
